@@ -24,6 +24,9 @@ static inline std::string typedObs(JsonVariant v, const JsonDocument* asDoc) {
     // (v | default) keeps v when v converts to true — the library's rule: false, 0 and null give way to the default
     if (plainDump(picked) != (cv.as<bool>() ? base : std::string("i42"))) return "or-variant";
     if (cv.is<std::nullptr_t>() != cv.isNull()) return "is-nullptr";
+    if (cv.as<std::nullptr_t>() != nullptr) return "as-nullptr";
+    if (!v.is<JsonVariant>() || !cv.is<JsonVariantConst>() || !v.is<JsonVariantConst>()) return "is-variant";
+    { JsonVariant none; JsonVariantConst nonec; if (none.is<JsonVariant>() || nonec.is<JsonVariantConst>() || !none.isNull() || none.size() || none.nesting()) return "unbound-variant"; }
     if (cv.is<bool>() != (base == "t" || base == "f")) return "is-bool";
     JsonString js = cv.as<JsonString>();
     bool isStr = base[0] == 's';
@@ -57,6 +60,10 @@ static inline std::string typedObs(JsonVariant v, const JsonDocument* asDoc) {
     std::vector<std::pair<std::string, std::string>> mem, mem2;
     for (JsonPairConst kv : oc) mem.emplace_back(std::string(kv.key().c_str(), kv.key().size()), plainDump(kv.value()));
     for (JsonPair kv : o) mem2.emplace_back(std::string(kv.key().c_str(), kv.key().size()), plainDump(kv.value()));
+    { std::vector<std::pair<std::string, std::string>> mem3, mem4;      // the iterators' operator-> and explicit ++ / != loops
+      for (JsonObject::iterator it = o.begin(); it != o.end(); ++it) mem3.emplace_back(std::string(it->key().c_str(), it->key().size()), plainDump(it->value()));
+      for (JsonObjectConst::iterator it = oc.begin(); it != oc.end(); ++it) mem4.emplace_back(std::string(it->key().c_str(), it->key().size()), plainDump(it->value()));
+      if (mem3 != mem2 || mem4 != mem) return "object-iterator-arrow"; }
     if (mem != mem2) return "jsonpair-iteration";
     if (mem.size() != cv.size()) return "object-iteration-count";
     if (mem.size() <= 8) {
@@ -71,6 +78,8 @@ static inline std::string typedObs(JsonVariant v, const JsonDocument* asDoc) {
         if (!o.containsKey(k) || !oc.containsKey(k) || !v.containsKey(k) || !cv.containsKey(k)) return "containsKey";
         if (!o.containsKey(kvar) || !oc.containsKey(kvar) || !v.containsKey(kvarM) || !cv.containsKey(kvar)) return "containsKey-variant";
         if (plainDump(oc[k]) != E || plainDump(cv[k]) != E) return "const-subscript";
+        // a proxy answers size() / nesting() / isNull() like the value it designates
+        if (v[k].size() != cv[k].size() || v[k].nesting() != cv[k].nesting() || v[k].isNull() != cv[k].isNull() || o[k].size() != cv[k].size()) return "member-proxy-observers";
         if (plainDump(oc[kvar]) != E || plainDump(cv[kvar]) != E || plainDump(JsonVariantConst(o[kvar])) != E || plainDump(v[kvarM]) != E) return "subscript-variant-key";
         if (k.find('\0') == std::string::npos) {
           std::vector<char> buf(k.begin(), k.end()); buf.push_back(0);
@@ -106,6 +115,11 @@ static inline std::string typedObs(JsonVariant v, const JsonDocument* asDoc) {
     std::vector<std::string> el, el2;
     for (JsonVariantConst e : ac) el.push_back(plainDump(e));
     for (JsonVariant e : a) el2.push_back(plainDump(e));
+    { std::vector<std::string> el3, el4;
+      for (JsonArray::iterator it = a.begin(); it != a.end(); ++it) el3.push_back(plainDump(JsonVariant(*it)) + (it->isNull() ? "N" : "V"));
+      for (JsonArrayConst::iterator it = ac.begin(); it != ac.end(); ++it) el4.push_back(plainDump(*it) + (it->isNull() ? "N" : "V"));
+      if (el3 != el4 || el3.size() != el2.size()) return "array-iterator-arrow";
+      for (size_t i = 0; i < el3.size(); i++) if (el3[i].substr(0, el3[i].size() - 1) != el2[i]) return "array-iterator-deref"; }
     if (el != el2) return "array-iteration";
     if (el.size() != cv.size()) return "array-iteration-count";
     if (el.size() <= 8) {
@@ -113,6 +127,7 @@ static inline std::string typedObs(JsonVariant v, const JsonDocument* asDoc) {
         JsonDocument id; id.set(i);
         JsonVariantConst ivar = id.as<JsonVariantConst>();
         if (plainDump(ac[i]) != el[i] || plainDump(cv[i]) != el[i]) return "const-index";
+        if (v[i].size() != cv[i].size() || v[i].nesting() != cv[i].nesting() || v[i].isNull() != cv[i].isNull() || a[i].size() != cv[i].size()) return "element-proxy-observers";
         if (plainDump(ac[ivar]) != el[i] || plainDump(cv[ivar]) != el[i] || plainDump(JsonVariantConst(a[ivar])) != el[i] || plainDump(v[id.as<JsonVariant>()]) != el[i]) return "index-variant";
         if (asDoc && (plainDump((*asDoc)[i]) != el[i] || plainDump((*asDoc)[ivar]) != el[i])) return "document-const-index";
       }
